@@ -48,7 +48,8 @@ def run_chips(ctx, quick):
         ctx.violation("model-broken", "C04/RunChips.v no longer compiles", {"log": log[-2000:]}, no_input=True)
         return
     exe = ctx.compile_harness([os.path.join(HERE, "harness", "chips.cc")], "chips", libs=L.LIBS, test_includes=True)
-    # deterministic replay of the known finding chips-costheta-exceeds-1-by-rounding-nan-direction, run first
+    # deterministic replay of the FIXED finding chips-costheta-exceeds-1-by-rounding-nan-direction (Q^2 = max, cos(theta)
+    # = -1.0000000000000009 before the clamp of /repo 2618c34), run first: must be finite and agree with the model
     cases = [(0.002811773902415465, [0.0, 0.0, 1.0], 1, 0,
               [float.fromhex('0x1.ffffffffffffep-1'), 0.0] + [0.37, 0.61, 0.2, 0.45] * 8)]
     cases += gen(ctx, 200 if quick else 4000)
@@ -88,17 +89,8 @@ def run_chips(ctx, quick):
         elif a["action"] != 0 or a["nsec"] != 0:
             bad = "action/secondaries"
         elif not fin:
-            if (at_limit and cos < 0 and a["action"] == 0 and a["nsec"] == 0
-                    and any(x >= 1 - 2.0 ** -51 for x in u[:a["draws"]])):
-                # KNOWN finding (narrow): cos(theta) < -1 by rounding at Q^2 = max (the interactor does not clamp)
-                nlimit += 1
-                ctx.count("chips:non-finite-direction-at-kinematic-limit")
-                if nlimit <= 2:
-                    ctx.violation("finding", "ChipsNeutronElasticInteractor: NaN direction, cos(theta) = %.17g exceeds -1 by "
-                                  "rounding at the maximum momentum transfer (not clamped); energy and deposit are NaN too (0 * NaN in the boost)" % cos,
-                                  {"input": rep, "impl": {k: (str(v) if k == "dir" else v) for k, v in a.items()}},
-                                  signature="chips-costheta-exceeds-1-by-rounding-nan-direction")
-                continue
+            # since /repo 2618c34 cos(theta) is clamped: a non-finite final state at the kinematic limit is a hard VIOLATION
+            # again (this is what a reverted fix looks like: replay case 0)
             if d[0] == 0 and d[1] == 0 and abs(d[2]) < 1:
                 ctx.violation("finding", "ChipsNeutronElasticInteractor: NaN direction from rotate() for a z-aligned incident "
                               "direction with |z| = 1 - 2^-53", {"input": rep, "impl": a},
@@ -131,8 +123,7 @@ def run_chips(ctx, quick):
                    and vlib.close(m["E"], a["E"], rtol=1e-9, atol=at) and vlib.close(m["dep"], a["dep"], rtol=1e-9, atol=at))
             # direction: ill-conditioned within 1e-6 rad of the axis and when the neutron is left with ~no energy
             tol = 1e-6 if (1 - abs(cos) <= 1e-10 or a["E"] < 1e-9 * E or L.small_branch_neg_y(d)) else 1e-8
-            # at the kinematic limit the model's own rounding may land on either side of |cos| = 1 (NaN or not)
-            if okc and not L.small_branch_neg_y(d) and not at_limit:
+            if okc and not L.small_branch_neg_y(d):
                 okc = all(abs(x - y) <= tol for x, y in zip(m["dir"], a["dir"]))
         if not okc:
             ndis += 1
